@@ -167,7 +167,8 @@ def run(ctx):
         run_api(ctx)
 
 
-API_NAMES = {1: "SD", 2: "VS(n records)", 3: "VS(order n)", 4: "GR", 5: "SD(two partial writes)"}
+API_NAMES = {1: "SD", 2: "VS(n records)", 3: "VS(order n)", 4: "GR", 5: "SD(two partial writes)",
+             6: "DFSD written, read through SD", 7: "SD written, read through DFSD"}
 
 
 def gen_api_cases(ctx):
@@ -175,7 +176,7 @@ def gen_api_cases(ctx):
     r = ctx.rng
     cases = []
     reps = 2 if ctx.tier == "quick" else 12
-    for api in (1, 2, 3, 4, 5):
+    for api in (1, 2, 3, 4, 5, 6, 7):
         for base, w in W.items():
             for fl in FLAV:
                 for k in range(reps):
